@@ -10,6 +10,6 @@ for s in z3 z3-new cvc5; do
 done
 echo "(check-sat)" > bin/.probe.smt2
 for s in z3 z3-new; do $s bin/.probe.smt2 | grep -q sat || { echo "$s does not answer"; exit 1; }; done
-cvc5 bin/.probe.smt2 | grep -q sat || { echo "cvc5 does not answer"; exit 1; }
+cvc5 bin/.probe.smt2 2>/dev/null | grep -q sat || { echo "cvc5 does not answer"; exit 1; }
 rm -f bin/.probe.smt2
 echo "setup ok"
